@@ -372,52 +372,71 @@ def specClient : Addr → Option (Bool × Nat)
   | .v4 a => some (true, a)
   | .v6 a _ => if a / 2 ^ 32 = 0xffff then some (true, a % 2 ^ 32) else some (false, a)
 
+/-- the client subnet of an address: family and leading bits -/
+def subnetId (c : Opts) (x : Addr) : Option (Bool × Nat) :=
+  match specClient x with
+  | none => none
+  | some (true, a) => some (true, a / 2 ^ (32 - specBits4 c))
+  | some (false, a) => some (false, a / 2 ^ (128 - specBits6 c))
+
 /-- same client subnet -/
-def specSame (c : Opts) (x y : Addr) : Bool :=
-  match specClient x, specClient y with
-  | some (true, a), some (true, b) => a / 2 ^ (32 - specBits4 c) == b / 2 ^ (32 - specBits4 c)
-  | some (false, a), some (false, b) => a / 2 ^ (128 - specBits6 c) == b / 2 ^ (128 - specBits6 c)
-  | none, none => true
-  | _, _ => false
+def specSame (c : Opts) (x y : Addr) : Bool := subnetId c x == subnetId c y
+
+/-- an arrival as the specification sees it: client subnet, time, cost -/
+structure SEv where
+  id : Option (Bool × Nat)
+  t : Nat
+  n : Nat
+  deriving Repr
+
+def Ev.toS (c : Opts) (e : Ev) : SEv := ⟨subnetId c e.addr, e.t, e.n⟩
 
 /-- the budget of a window of length `d` ns, in nano-tokens -/
 def specBudget (c : Opts) (d : Int) : Int :=
   ((specBurst c * nano : Nat) : Int) + (specLimit c : Int) * d
 
 /-- walk forward from the window start `e0` -/
-def specWalk (c : Opts) (slack : Int) (e0 : Ev) (acc : Nat) : List Ev → List Bool → Bool
+def specWalk (c : Opts) (slack : Int) (e0 : SEv) (acc : Nat) : List SEv → List Bool → Bool
   | e :: es, d :: ds =>
-    if specSame c e0.addr e.addr then
+    if e0.id == e.id then
       let acc' := acc + (if d then e.n else 0)
       decide (((acc' * nano : Nat) : Int) ≤ specBudget c ((e.t : Int) - e0.t) + slack)
         && specWalk c slack e0 acc' es ds
     else specWalk c slack e0 acc es ds
   | _, _ => true
 
-def specBound (c : Opts) (slack : Int) : List Ev → List Bool → Bool
-  | e :: es, d :: ds => specWalk c slack e 0 (e :: es) (d :: ds) && specBound c slack es ds
+def specBoundS (c : Opts) (slack : Int) : List SEv → List Bool → Bool
+  | e :: es, d :: ds => specWalk c slack e 0 (e :: es) (d :: ds) && specBoundS c slack es ds
   | _, _ => true
 
-/-- walk backward from a refused arrival at time `t` of address `a`; `x` = nano-cost that
+/-- clause 1 -/
+def specBound (c : Opts) (slack : Int) (evs : List Ev) (ds : List Bool) : Bool :=
+  specBoundS c slack (evs.map (Ev.toS c)) ds
+
+/-- walk backward from a refused arrival at time `t` of subnet `id`; `x` = nano-cost that
     would have been admitted in the window if the arrival had been admitted. -/
-def specScan (c : Opts) (slack : Int) (a : Addr) (t : Nat) (x : Int) : List (Ev × Bool) → Bool
+def specScan (c : Opts) (slack : Int) (id : Option (Bool × Nat)) (t : Nat) (x : Int) : List (SEv × Bool) → Bool
   | [] => false
   | (p, d) :: ps =>
-    if specSame c a p.addr then
+    if id == p.id then
       let x' := x + (if d then ((p.n * nano : Nat) : Int) else 0)
-      decide (x' + slack > specBudget c ((t : Int) - p.t)) || specScan c slack a t x' ps
-    else specScan c slack a t x ps
+      decide (x' + slack > specBudget c ((t : Int) - p.t)) || specScan c slack id t x' ps
+    else specScan c slack id t x ps
 
-def specExhausted (c : Opts) (slack : Int) (e : Ev) (past : List (Ev × Bool)) : Bool :=
+def specExhausted (c : Opts) (slack : Int) (e : SEv) (past : List (SEv × Bool)) : Bool :=
   decide (((e.n * nano : Nat) : Int) + slack > specBudget c 0)
-    || specScan c slack e.addr e.t ((e.n * nano : Nat) : Int) past
+    || specScan c slack e.id e.t ((e.n * nano : Nat) : Int) past
 
 /-- `past` = earlier arrivals with their verdicts, most recent first -/
-def specNoSpuriousRefusal (c : Opts) (slack : Int) (past : List (Ev × Bool)) :
-    List Ev → List Bool → Bool
+def specNoSpuriousRefusalS (c : Opts) (slack : Int) (past : List (SEv × Bool)) :
+    List SEv → List Bool → Bool
   | e :: es, d :: ds =>
-    (d || specExhausted c slack e past) && specNoSpuriousRefusal c slack ((e, d) :: past) es ds
+    (d || specExhausted c slack e past) && specNoSpuriousRefusalS c slack ((e, d) :: past) es ds
   | _, _ => true
+
+/-- clause 2 -/
+def specNoSpuriousRefusal (c : Opts) (slack : Int) (evs : List Ev) (ds : List Bool) : Bool :=
+  specNoSpuriousRefusalS c slack [] (evs.map (Ev.toS c)) ds
 
 def sortedTimes : List Ev → Bool
   | e :: e' :: es => decide (e.t ≤ e'.t) && sortedTimes (e' :: es)
@@ -433,7 +452,7 @@ def saneBurst (c : Opts) : Bool := decide (specBurst c * nano ≤ specLimit c * 
 def specEvs (c : Opts) (extra : Nat) (evs : List Ev) (ds : List Bool) : Bool :=
   ds.length == evs.length
     && specBound c ((specLimit c : Int) - 1 + extra) evs ds
-    && specNoSpuriousRefusal c (extra : Int) [] evs ds
+    && specNoSpuriousRefusal c (extra : Int) evs ds
 
 def sortedOps : List Op → Bool
   | o :: o' :: os => decide (o.time ≤ o'.time) && sortedOps (o' :: os)
@@ -558,7 +577,7 @@ def run (case impl : String) : String × String :=
         if ds.length != evs.length then "viol:length"
         else if !(sortedOps ops && timesInRange ops && saneBurst o) then "na"
         else if !specBound o ((specLimit o : Int) - 1 + tol) evs ds then "viol:bound"
-        else if !specNoSpuriousRefusal o (tol : Int) [] evs ds then "viol:refused-within-budget"
+        else if !specNoSpuriousRefusal o (tol : Int) evs ds then "viol:refused-within-budget"
         else "ok"
       (strOfOut m.1 m.2, v)
     | none =>
@@ -575,9 +594,11 @@ def run (case impl : String) : String × String :=
   case : `glob=<int> burst=<int> v4=<int> ops=<op>,…`
          op = `u:<addr>` one UDP query | `t:<addr>:<k>` one TCP connection with k queries |
               `h:<addr>:<k>` one HTTP/1.1 connection with k POSTs |
+              `q:<addr>:<k>` one DoQ connection with k queries (one stream each) |
               `x:<addr>:<n>` `router.limiterAllowN(addr, n)` called directly
   out  : `r=<per-op outcome>,… fwd=<queries seen by the upstream>`
-         outcome: per query `o` answered NOERROR | `r` REFUSED | `5` 503 ; `c` connection closed;
+         outcome: per query `o` answered NOERROR | `r` REFUSED | `5` 503 | `x` DoQ stream closed
+         without an answer ; `c` connection closed;
          x ops: `o` nil | `g` errGlobalResLimit | `k` errClientResLimit
 -/
 
@@ -585,6 +606,7 @@ inductive LOp where
   | udp (a : Addr)
   | tcp (a : Addr) (k : Nat)
   | http (a : Addr) (k : Nat)
+  | quic (a : Addr) (k : Nat)
   | direct (a : Addr) (n : Nat)
 
 def lopOfStr (s : String) : Option LOp :=
@@ -592,6 +614,7 @@ def lopOfStr (s : String) : Option LOp :=
   | ["u", a] => (addrOfStr a).map .udp
   | ["t", a, k] => do pure (.tcp (← addrOfStr a) (← natOfStr k))
   | ["h", a, k] => do pure (.http (← addrOfStr a) (← natOfStr k))
+  | ["q", a, k] => do pure (.quic (← addrOfStr a) (← natOfStr k))
   | ["x", a, n] => do pure (.direct (← addrOfStr a) (← natOfStr n))
   | _ => none
 
@@ -604,6 +627,7 @@ def queries (p : Point) (a : Addr) : Nat → ResLimiter → String → Nat → S
     | .handle => queries p a k (postCharge r.2 false a 0) (acc ++ "o") (fwd + 1)
     | .respRefused => queries p a k r.2 (acc ++ "r") fwd
     | .http503 => queries p a k r.2 (acc ++ "5") fwd
+    | .closeStream => queries p a k r.2 (acc ++ "x") fwd
     | _ => queries p a k r.2 (acc ++ "?") fwd
 
 def listenerRun : List LOp → ResLimiter → List String → Nat → List String × Nat
@@ -621,6 +645,12 @@ def listenerRun : List LOp → ResLimiter → List String → Nat → List Strin
     let r := admission l .httpConn false a 0
     if r.1 = .serve then
       let (s, fwd, l) := queries .httpQuery a k r.2 "" fwd
+      listenerRun os l (s :: acc) fwd
+    else listenerRun os r.2 ("c" :: acc) fwd
+  | .quic a k :: os, l, acc, fwd =>
+    let r := admission l .quicConn false a 0
+    if r.1 = .serve then
+      let (s, fwd, l) := queries .quicQuery a k r.2 "" fwd
       listenerRun os l (s :: acc) fwd
     else listenerRun os r.2 ("c" :: acc) fwd
   | .direct a n :: os, l, acc, fwd =>
@@ -647,7 +677,7 @@ def Usage.add (c : Opts) (u : Usage) (a : Addr) (dlo dhi : Nat) : Usage :=
 
 /-- The property on an observed listener run without a global limit, for a run shorter
     than one second at 1 token/s (nothing refills):
-    * a query that was refused got REFUSED / 503 and was not forwarded — the upstream saw
+    * a query that was refused got REFUSED / 503 (DoQ: its stream closed) and was not forwarded — the upstream saw
       exactly the answered queries;
     * the cost certainly admitted for one subnet never exceeds the burst;
     * nobody is refused while the most that can have been charged to his own subnet, plus
@@ -659,6 +689,7 @@ def listenerSpecOps (c : Opts) (burst : Nat) : List LOp → List String → Usag
       | .udp a => (a, 0, costUDPQuery, 'r')
       | .tcp a _ => (a, costTCPConn, costTCPQuery, 'r')
       | .http a _ => (a, costTCPConn, costHTTPQuery, '5')
+      | .quic a _ => (a, costQuicConn, costQUICQuery, 'x')
       | .direct a n => (a, 0, n, 'k')
     let isDirect := match op with
       | .direct _ _ => true
@@ -690,6 +721,27 @@ def listenerSpec (c : Opts) (burst : Nat) (ops : List LOp) (outs : List String) 
     | _ => (s.toList.filter (· == 'o')).length).sum
   fwd == answered && listenerSpecOps c burst ops outs []
 
+/-- Direct calls of `limiterAllowN` with a global limit of `g` tokens (rate = burst = g, no
+    refill during the case): "only the global limit is shared" —
+    * `o`: within the global budget and within the own subnet's budget;
+    * `g`: only if the global budget would be exceeded (everything admitted so far by the
+      global limiter — including calls the client limiter then refused — plus this cost);
+    * `k`: only if the own subnet's budget would be exceeded, where a subnet is charged only by
+      calls that passed the global limiter. -/
+def directSpec (c : Opts) (burst g : Nat) : List LOp → List String → (Nat × Nat) → Usage → Bool
+  | [], [], _, _ => true
+  | .direct a n :: ops, out :: outs, (glo, ghi), u =>
+    let (lo, hi) := Usage.get c u a
+    if out == "o" then
+      decide (glo + n ≤ g) && decide (lo + n ≤ burst) && directSpec c burst g ops outs (glo + n, ghi + n) (Usage.add c u a n n)
+    else if out == "g" then
+      decide (ghi + n > g) && directSpec c burst g ops outs (glo, ghi) u
+    else if out == "k" then
+      -- the global limiter admitted it (and was charged), the client limiter may or may not have been asked
+      decide (hi + n > burst) && directSpec c burst g ops outs (glo, ghi + n) u
+    else false
+  | _, _, _, _ => false
+
 def runListener (case impl : String) : String × String :=
   let toks := words case
   match (kvGet toks "glob").bind String.toInt?, (kvGet toks "burst").bind String.toInt?,
@@ -702,7 +754,8 @@ def runListener (case impl : String) : String × String :=
     let itoks := words impl
     let v := match kvGet itoks "r", kvNat itoks "fwd" with
       | some r, some f =>
-        if g > 0 then "na"   -- with a global limit the oracle is the model (global first, then client)
+        if g > 0 then
+          if directSpec c (specBurst c) g.toNat ops (r.splitOn ",") (0, 0) [] && f == 0 then "ok" else "viol:global-shared-only"
         else if listenerSpec c (specBurst c) ops (r.splitOn ",") f then "ok" else "viol:listener"
       | _, _ => "unparsed"
     (m, v)
